@@ -1053,7 +1053,8 @@ class ContractionTree:
         return {
             "flops": self.multiplicity * self._flops,
             "write": self.multiplicity * self._write,
-            "size": self._sizes.max(),
+            # n.b. this handles the single input case (no intermediates)
+            "size": self.max_size(),
         }
 
     def arithmetic_intensity(self):
